@@ -37,7 +37,7 @@ struct MoveOnly {
 
 enum Op { PUSH = 0, POP, UNBLOCK, REAP, DESTROY, POPCB, NOPS };
 static const char *op_names[] = {"push", "pop", "unblock_pop", "reap", "destroy", "pop-by-callback-consumer"};
-static const char *ty_names[] = {"int", "moveonly", "void"};
+static const char *ty_names[] = {"int", "moveonly", "void", "tracked"};
 
 struct Model {
     std::deque<int> items;
@@ -113,8 +113,54 @@ struct Model {
     }
 };
 
+// copyable item whose moved-from and destroyed states are visible; pushed as a named object every other time: push copies
+// it, whatever branch it takes, and the producer's object stays intact
+static long g_tr_live;
+static int g_tr_lvalue_consumed;
+struct Tracked {
+    int v = -1, chk = 0;
+    Tracked() { ++g_tr_live; }
+    explicit Tracked(int x) : v(x), chk(~x) { ++g_tr_live; }
+    Tracked(const Tracked &o) : v(o.get()), chk(~v) { ++g_tr_live; }
+    Tracked(Tracked &&o) noexcept : v(o.get()), chk(~v) {
+        ++g_tr_live;
+        o.poison();
+    }
+    Tracked &operator=(const Tracked &o) {
+        v = o.get();
+        chk = ~v;
+        return *this;
+    }
+    Tracked &operator=(Tracked &&o) noexcept {
+        v = o.get();
+        chk = ~v;
+        o.poison();
+        return *this;
+    }
+    ~Tracked() {
+        --g_tr_live;
+        poison();
+    }
+    void poison() {
+        volatile int *p = &v, *q = &chk;
+        *p = -7777;
+        *q = 0;
+    }
+    int get() const { return chk == ~v ? v : -7777; }
+};
 template <typename T>
 struct Val;
+template <>
+struct Val<Tracked> {
+    static bool push(cocls::queue<Tracked> &q, int v) {
+        if (v & 1) return q.push(Tracked(v));
+        Tracked mine(v);
+        bool r = q.push(mine);
+        if (mine.get() != v) g_tr_lvalue_consumed++;
+        return r;
+    }
+    static int read(cocls::future<Tracked> &f) { return f.value().get(); }
+};
 template <>
 struct Val<int> {
     static bool push(cocls::queue<int> &q, int v) { return q.push(v); }
@@ -173,6 +219,8 @@ static void run_case(seqx::Runner &R, int ty, const std::vector<int> &seq) {
     R.begin(describe(ty, seq));
     int64_t base = seqx::live_allocs();
     g_mo_live = 0;
+    g_tr_live = 0;
+    g_tr_lvalue_consumed = 0;
     {
         Model m;
         auto q = std::make_unique<cocls::queue<T>>();
@@ -300,6 +348,8 @@ static void run_case(seqx::Runner &R, int ty, const std::vector<int> &seq) {
     }
     if (!R.case_fail && seqx::live_allocs() != base) R.fail("q/allocation-balance", "%ld allocations not released", (long)(seqx::live_allocs() - base));
     if (!R.case_fail && g_mo_live != 0) R.fail("q/item-lifetime", "%ld move-only items still alive after teardown", g_mo_live);
+    if (!R.case_fail && g_tr_live != 0) R.fail("q/item-lifetime", "%ld tracked items still alive (or destroyed twice) after teardown", g_tr_live);
+    if (!R.case_fail && g_tr_lvalue_consumed) R.fail("q/push-consumed-lvalue", "push(lvalue) changed the producer's own object %d times", g_tr_lvalue_consumed);
     R.end(true);
 }
 
@@ -308,6 +358,8 @@ static void run_ty(seqx::Runner &R, int ty, const std::vector<int> &seq) {
         run_case<int>(R, ty, seq);
     else if (ty == 1)
         run_case<MoveOnly>(R, ty, seq);
+    else if (ty == 3)
+        run_case<Tracked>(R, ty, seq);
     else
         run_case<void>(R, ty, seq);
 }
@@ -332,16 +384,16 @@ static void dfs(seqx::Runner &R, int ty, int depth, std::vector<int> &seq, const
 
 void seqx_run(seqx::Runner &R, const std::string &tier) {
     int depth = tier == "quick" ? 7 : 9;
-    for (int ty = 0; ty < 3; ty++) {
+    for (int ty = 0; ty < 4; ty++) {
         Model m;
         std::vector<int> seq;
-        dfs(R, ty, depth, seq, m);
+        dfs(R, ty, ty == 3 ? depth - 1 : depth, seq, m);
     }
 }
 
 void seqx_replay(seqx::Runner &R, const std::string &c) {
     int ty = 0;
-    for (int i = 0; i < 3; i++)
+    for (int i = 0; i < 4; i++)
         if (c.find(std::string("type=") + ty_names[i] + ";") != std::string::npos) ty = i;
     std::vector<int> seq;
     std::stringstream ss(c.substr(c.find("ops=") + 4));
